@@ -2,6 +2,9 @@
 pm_c12: model driver for C12.  A case starts with
   open <ranked|lru|none> <size>          one stand-alone fragment (shard 0)
   srv  <ranked|lru|none> <size>          a field with shards 0 and 1 behind the executor
+  pair <kindA> <sizeA> <kindB> <sizeB>   two stand-alone fragments 0 and 1 (addressed `sh <k> ...`) for hand-over:
+       transfer <i> <j>                  fragment i WriteTo -> fragment j ReadFrom            -> ok
+       row <k> <row>                     columns of the row on fragment k                    -> [cols]
 Operation lines; every line may end in ` ~ <hints>` (written by the harness from what the real
 code did, see Model.lean):  <shard>/r:<ids>  <shard>/t:<ids>  <shard>/a:<ids>  p:<ids>
   [sh <k>] set|clear t<0|1> <row> <col>             -> true|false (changed)
@@ -168,6 +171,12 @@ def step (st : St) (ws0 : List String) : St × Ans :=
     match parseKind k, sz.toNat? with
     | some k, some sz => ({ opened := true, srv := false, frags := [Frag.open k sz] }, ans "ok")
     | _, _ => bad
+  | ["skip"] => (st, ans "skip")
+  | ["pair", ka, sa, kb, sb] =>
+    match parseKind ka, sa.toNat?, parseKind kb, sb.toNat? with
+    | some ka, some sa, some kb, some sb =>
+      ({ opened := true, srv := false, frags := [Frag.open ka sa, Frag.open kb sb], filt := [[], []] }, ans "ok")
+    | _, _, _, _ => bad
   | ["srv", k, sz] =>
     match parseKind k, sz.toNat? with
     | some k, some sz =>
@@ -190,6 +199,25 @@ def step (st : St) (ws0 : List String) : St × Ans :=
           | none => bad
         | none => bad
       | none => bad
+    | ["transfer", i, j] =>
+      -- hand-over: fragment i's WriteTo, fragment j's ReadFrom
+      match i.toNat?, j.toNat? with
+      | some i, some j =>
+        match frags[i]?, frags[j]? with
+        | some src, some dst =>
+          if i = j then bad else
+          let fs := replaceAt frags j (dst.transfer src)
+          if hintsFine fs then ({ st with frags := clearHints fs }, ans "ok")
+          else ({ st with frags := clearHints fs }, ans "bad-hint")
+        | _, _ => bad
+      | _, _ => bad
+    | ["row", k, r] =>
+      match k.toNat?, r.toNat? with
+      | some k, some r =>
+        match frags[k]? with
+        | some f => (st, ans (showNats (sortAsc ((f.store.filter (fun p => p.1 == r)).map (·.2)))))
+        | none => bad
+      | _, _ => bad
     | ["gset", k, c] =>
       match k.toNat?, c.toNat? with
       | some k, some c =>
